@@ -66,7 +66,13 @@ fn harvest(prop: &'static str, cfg: &PeerCfg, sim: &mut PeerSim, out: &mut CaseO
 
 fn run_peer(prop: &'static str, focus: u8, idx: u64, rng: &mut Rng, ctx: &Ctx) -> CaseOut {
     let mut out = CaseOut::default();
-    let cfg = random_cfg(rng, focus);
+    let mut cfg = random_cfg(rng, focus);
+    if prop == "C02" && idx % 3 != 0 {
+        // C02 judges deadlines: two thirds of its scripted peers are stingy ones (see PeerCfg::stingy)
+        cfg.stingy = true;
+        cfg.keep_alive_ms = None;
+        cfg.timeout_ms = None;
+    }
     let tag = rng.next_u64();
     let mut sim = PeerSim::new(cfg.clone(), tag);
     sim.verbose = ctx.verbose;
@@ -87,6 +93,11 @@ fn run_peer(prop: &'static str, focus: u8, idx: u64, rng: &mut Rng, ctx: &Ctx) -
         }
         n += 1;
         let mut cfg2 = random_cfg(rng, focus);
+        if prop == "C02" && idx % 3 != 0 {
+            cfg2.stingy = true;
+            cfg2.keep_alive_ms = None;
+            cfg2.timeout_ms = None;
+        }
         if back_in_listen {
             cfg2.active = false;
             out.count("listeners_reused_after_falling_back_to_listen", 1);
